@@ -471,5 +471,65 @@ theorem hasAct_record_ne (a : Actions) (x y : Action) (t : Nat) (hne : x ≠ y) 
 
 
 
+/-! ### security failure in the receive chain -/
+
+theorem hasAct_record_self (a : Actions) (x : Action) (t : Nat) : hasAct (recordAct a x t) x = true := by
+  rw [hasAct_iff]
+  unfold recordAct
+  split
+  · rename_i h
+    obtain ⟨t0, hm⟩ := (hasAct_iff _ _).1 h
+    exact ⟨t, List.mem_map.2 ⟨(x, t0), hm, by simp⟩⟩
+  · exact ⟨t, by simp⟩
+
+/-- what a failed security step leaves: 'deliver' taken back, 'delete' recorded -/
+theorem secStep_fail (c : Ctr) (now r : Nat) (h : hasAct c.actions .deliver = true) :
+    hasAct (secStep c now (.fail r)).1.actions .deliver = false
+    ∧ hasAct (secStep c now (.fail r)).1.actions .delete = true
+    ∧ (secStep c now (.fail r)).2 = true := by
+  have e : secStep c now (.fail r) =
+      (({ c with actions := delAct c.actions .deliver }).record .delete now (some r), true) := by
+    simp [secStep, h]
+  rw [e]
+  refine ⟨?_, ?_, rfl⟩
+  · simp only [Ctr.record]
+    rw [hasAct_record_ne _ _ _ _ (by decide)]; exact hasAct_delAct _ _
+  · simp only [Ctr.record]; exact hasAct_record_self _ _ _
+
+/-- The receive chain on a whole bundle whose BCB step fails ends in a container without
+    'deliver'. -/
+theorem chain_bcb_fail (cfg : Cfg) (rx : RxBundle) (now r : Nat) (c0 : Ctr)
+    (hp0 : c0.primary = rx.primary) (hf : isFragment rx.primary.flags = false) (hb : rx.bcb = .fail r) :
+    ∃ c, runChain cfg rx now [.adminRoute, .static, .reasm, .bcb, .bib, .adminHandle] c0 = c
+      ∧ hasAct c.actions .deliver = false := by
+  have hs1 : (runStep cfg rx now .adminRoute c0).2 = false := by
+    simp only [runStep]; split <;> rfl
+  have hp1 : (runStep cfg rx now .adminRoute c0).1.primary = rx.primary := by
+    rw [← hp0]; simp only [runStep]; split <;> simp [Ctr.record]
+  have hs2 : ∀ c1, (runStep cfg rx now .static c1).2 = false := by
+    intro c1; simp only [runStep]; (repeat' split) <;> rfl
+  have hp2 : ∀ c1, (runStep cfg rx now .static c1).1.primary = c1.primary := by
+    intro c1; simp only [runStep]; (repeat' split) <;> simp [Ctr.record]
+  have hre : ∀ c2 : Ctr, c2.primary = rx.primary → runStep cfg rx now .reasm c2 = (c2, false) := by
+    intro c2 h2; simp [runStep, h2, hf]
+  have key : ∀ c2 : Ctr, c2.primary = rx.primary →
+      ∃ c, runChain cfg rx now [.reasm, .bcb, .bib, .adminHandle] c2 = c ∧ hasAct c.actions .deliver = false := by
+    intro c2 h2
+    cases hdl : hasAct c2.actions .deliver
+    · have h4 : runStep cfg rx now .bcb c2 = (c2, false) := by simp [runStep, secStep, hdl]
+      have h5 : runStep cfg rx now .bib c2 = (c2, false) := by simp [runStep, secStep, hdl]
+      have h6 : runStep cfg rx now .adminHandle c2 = (c2, false) := by simp [runStep, hdl]
+      exact ⟨c2, by simp [runChain, hre c2 h2, h4, h5, h6], hdl⟩
+    · obtain ⟨g1, _, g3⟩ := secStep_fail c2 now r hdl
+      have h4 : runStep cfg rx now .bcb c2 = ((secStep c2 now (.fail r)).1, true) := by
+        simp only [runStep, hb]; exact Prod.ext rfl g3
+      exact ⟨_, by simp [runChain, hre c2 h2, h4], g1⟩
+  obtain ⟨c, hc, hd⟩ := key (runStep cfg rx now .static (runStep cfg rx now .adminRoute c0).1).1
+    ((hp2 _).trans hp1)
+  refine ⟨c, ?_, hd⟩
+  rw [← hc]
+  simp [runChain, hs1, hs2]
+
+
 end Agent
 end DtnVerif
